@@ -24,11 +24,53 @@ META = {
     "assumptions": ["real operands (the interface recursions do not conjugate the test core)",
                     "generic sizes: rank families at different positions / of different trains are independent",
                     "the band-diagonal products (shifted diagonals re-padded by their offset) are not contraction networks and are not decided"],
-    "floors": {"SCALE-FREE": 2, "ENRICH-WIDTH": 1, "ZERO-NORM": 6, "ARNOLDI-SEED": 1, "E5-CHAIN": 18, "IFACE-TYPE": 30, "DEF-ATTR": 12, "E3-PARAM": 3},
+    "floors": {"RESIDUAL-UNPREC": 1, "SCALE-FREE": 2, "ENRICH-WIDTH": 1, "ZERO-NORM": 6, "ARNOLDI-SEED": 1, "E5-CHAIN": 18, "IFACE-TYPE": 30, "DEF-ATTR": 12, "E3-PARAM": 3},
 }
 ANCHORS = ["solvers.amen_solve", "solvers._amen_solve_python", "solvers._local_product", "solvers._LinearOp.matvec", "solvers._LinearOp.apply_prec",
            "solvers._compute_phi_fwd_A", "solvers._compute_phi_bck_A", "solvers._compute_phi_fwd_rhs", "solvers._compute_phi_bck_rhs",
            "_iterative_solvers.gmres_restart", "_iterative_solvers.gmres", "_iterative_solvers.BiCGSTAB_reset"]
+
+
+def rule_residual_unprec(model: Model):
+    """RESIDUAL-UNPREC (added after seed S3-C12-1).  The iterative local solvers are handed the operator object, whose matvec applies the
+    preconditioner by default (they solve A P y = r and the sweep maps y back with apply_prec).  The right-hand side r they receive is the
+    residual b - A x of the *original* local system: every `<op>.matvec(...)` inside the definitions of that argument must switch the
+    preconditioner off (second argument / apply_prec False).  One obligation per matvec call feeding a solver's right-hand side."""
+    import ast
+    from ..model import norm
+    from ..inline import inlined
+    f = inlined(model, model.func("solvers._amen_solve_python"))      # a local solve moved into a private helper is read in place
+    obs = []
+    solvers = ("gmres_restart", "BiCGSTAB_reset", "gmres", "BiCGSTAB")
+    rhs_names = set()
+    for n in ast.walk(f.node):
+        if isinstance(n, ast.Call) and (model.resolve(f.module, n.func) or "").rsplit(".", 1)[-1] in solvers and len(n.args) >= 2:
+            for x in ast.walk(n.args[1]):
+                if isinstance(x, ast.Name):
+                    rhs_names.add(x.id)
+    # close over the locals the right-hand side is computed from (one level of temporaries: drhs = Op.matvec(..); drhs = rhs - drhs)
+    defs = {}
+    for n in ast.walk(f.node):
+        if isinstance(n, ast.Assign) and len(n.targets) == 1 and isinstance(n.targets[0], ast.Name):
+            defs.setdefault(n.targets[0].id, []).append(n)
+    calls = []
+    for nm in sorted(rhs_names):
+        for d in defs.get(nm, []):
+            for c in ast.walk(d.value):
+                if isinstance(c, ast.Call) and isinstance(c.func, ast.Attribute) and c.func.attr == "matvec":
+                    calls.append((nm, d, c))
+    if not calls:
+        return [Ob("RESIDUAL-UNPREC", "solvers._amen_solve_python:RESIDUAL-UNPREC", ERROR, model.where(f), "rhs of the local iterative solve",
+                   "the residual handed to the iterative local solvers (a local computed with <op>.matvec) was not found")]
+    for i, (nm, d, c) in enumerate(calls):
+        off = (len(c.args) >= 2 and isinstance(c.args[1], ast.Constant) and c.args[1].value is False) or \
+            any(k.arg == "apply_prec" and isinstance(k.value, ast.Constant) and k.value.value is False for k in c.keywords)
+        obs.append(Ob("RESIDUAL-UNPREC", f"solvers._amen_solve_python:RESIDUAL-UNPREC:{i}", OK if off else VIOLATED, model.where(f, d), norm(d)[:100],
+                      "the residual of the original system is formed with the preconditioner switched off" if off else
+                      f"`{norm(d)[:90]}` forms the right-hand side `{nm}` of the local iterative solve with the *preconditioned* operator (matvec applies the "
+                      "preconditioner unless told otherwise): with a preconditioner the solver is given A P x instead of A x in the residual, the correction "
+                      "equation is wrong and AMEn diverges (identical without a preconditioner)"))
+    return obs
 
 
 def check(model: Model, tier: str):
@@ -50,6 +92,10 @@ def check(model: Model, tier: str):
     obs += rule_enrich_width(model, "solvers._amen_solve_python")
     from ..normguard import rule_scale_free
     obs += rule_scale_free(model, "solvers._amen_solve_python")
+    for fs in ("_iterative_solvers.gmres", "_iterative_solvers.BiCGSTAB_reset", "_iterative_solvers.gmres_restart"):
+        if model.has_func(fs):
+            obs += rule_scale_free(model, fs)
+    obs += rule_residual_unprec(model)
     obs += rule_arnoldi_seed(model)
     fs = [model.func(a) for a in ANCHORS]
     exc = {
